@@ -92,6 +92,13 @@ def san_reports(stderr):
     return reps
 
 
+def san_sig(kind, fn):
+    if kind.startswith("tsan:lock-order-inversion"):
+        # ev/select / ev/rselect take the locks of their thread channels in clause order (known finding)
+        return "deadlock-select-lock-order"
+    return kind + ":" + fn
+
+
 def run(ctx, only_replay=None):
     quick = ctx.tier == "quick"
     broken = []
@@ -147,11 +154,12 @@ def run(ctx, only_replay=None):
     except Exception as e:
         ctx.notes.append("perturbation shim not built: %r" % (e,))
     jobs = []
-    nplain = 260 if quick else 4000
-    nasan = 30 if quick else 500
-    ntsan = 16 if quick else 600
-    if broken:
-        nplain *= 3
+    nplain = 220 if quick else 4000
+    nasan = 24 if quick else 500
+    ntsan = 12 if quick else 600
+    if ctx.nviol:
+        # a failing input is already in hand (op-sequence oracle): every lost message costs a stall timeout, keep (E) small
+        nplain, nasan, ntsan = 40, 6, 4
     for i in range(nplain):
         r = ctx.rng.fork("topo%d" % i)
         size = "big" if i % 7 == 0 else "small"
@@ -178,15 +186,17 @@ def run(ctx, only_replay=None):
             return job, None, []
         env = dict(os.environ, **SAN_ENV)
         env["C08_PSEED"] = str(pseed)
-        res = topo.run_scenario(v["janet"], scn, env=env, timeout=180 if vn == "plain" else 400,
+        res = topo.run_scenario(v["janet"], scn, env=env, timeout=60 if vn == "plain" else 150,
                                 preload=shim if (perturb and vn == "plain" and shim) else None)
+        if vn == "tsan" and res["rc"] == 66:
+            res["rc"] = 0  # TSan's exit status when it printed reports; the reports themselves are handled below
         bad = topo.oracle(scn, res)
         for kind, fn in san_reports(res["stderr"]):
-            bad.append((kind + ":" + fn, "sanitizer report %s in %s" % (kind, fn)))
+            bad.append((san_sig(kind, fn), "sanitizer report %s in %s" % (kind, fn)))
         return job, res, bad
 
     results = []
-    with cf.ThreadPoolExecutor(6) as ex:
+    with cf.ThreadPoolExecutor(8) as ex:
         for r in ex.map(one, jobs):
             results.append(r)
     cov_feat = {}
@@ -229,7 +239,7 @@ def run(ctx, only_replay=None):
             if last != meta.get("expect") or sreps:
                 sig = meta.get("sig", "corpus:" + fn)
                 if last == meta.get("expect") and sreps:
-                    sig = sreps[0][0] + ":" + sreps[0][1]
+                    sig = san_sig(sreps[0][0], sreps[0][1])
                 if sig in reported:
                     continue
                 reported.add(sig)
@@ -288,7 +298,7 @@ def replay(ctx, path):
         fails = 0
         for k in range(10):
             res = topo.run_scenario(v["janet"], scn, env=dict(os.environ, **SAN_ENV))
-            bad = topo.oracle(scn, res) + [(a + ":" + b, "sanitizer") for a, b in san_reports(res["stderr"])]
+            bad = topo.oracle(scn, res) + [(san_sig(a, b), "sanitizer") for a, b in san_reports(res["stderr"])]
             hit = [b for b in bad if b[0] == r.get("signature")]
             print("replay run %d: %s" % (k, [b[0] for b in bad]))
             if hit:
